@@ -25,6 +25,8 @@
 (* Deviations of the code from the statement (DESIGN 2.6):                  *)
 (*   Resurrect     End writes the job unconditionally: a job that was       *)
 (*                 finished between Begin and End comes back                *)
+(*                 (REPAIRED: read + put in one WriteShelf, FALSE in the    *)
+(*                 descriptive configurations; dev.resurrect stays a guard) *)
 (*   RunOvershoot  Run() attempts exhausted jobs as well and counts beyond  *)
 (*                 the budget                                              *)
 (*   Threshold < Budget   GetFailedEvents lists jobs from                   *)
